@@ -15,6 +15,7 @@ If a source leaves this grammar the translator exits non-zero; ./check treats th
 obligation (search for a failing input, then report).
 """
 import os, re, sys
+sys.path.insert(0, os.path.dirname(os.path.abspath(__file__)))
 
 def die(msg):
     print("rs2lean: " + msg)
@@ -88,6 +89,67 @@ def write(path, content):
         return
     os.makedirs(os.path.dirname(path), exist_ok=True)
     open(path, "w").write(content)
+
+ORI_PATHS = {"Zero::zero": "0", "T::zero": "0", "Orientation::CounterClockwise": "Ori.ccw",
+             "Orientation::Clockwise": "Ori.cw", "Orientation::Collinear": "Ori.col"}
+
+# (file, header regex, Lean name, Lean parameters, Lean result type, whitelisted functions, receiver substitutions)
+KERNEL_FNS = [
+    ("geo/src/algorithm/intersects/mod.rs", r"fn value_in_range<T>\(value: T, min: T, max: T\) -> bool[^{]*\{",
+     "valueInRange", "(value min max : Rat)", "Bool", {}, []),
+    ("geo/src/algorithm/intersects/mod.rs", r"fn value_in_between<T>\(value: T, bound_1: T, bound_2: T\) -> bool[^{]*\{",
+     "valueInBetween", "(value bound_1 bound_2 : Rat)", "Bool", {"value_in_range": "valueInRange"}, []),
+    ("geo/src/algorithm/intersects/mod.rs", r"fn point_in_rect<T>\(value: Coord<T>, bound_1: Coord<T>, bound_2: Coord<T>\) -> bool[^{]*\{",
+     "pointInRect", "(value bound_1 bound_2 : Pt)", "Bool", {"value_in_between": "valueInBetween"}, []),
+    ("geo/src/algorithm/intersects/rect.rs", r"impl<T> Intersects<Coord<T>> for Rect<T>.*?fn intersects\(&self, rhs: &Coord<T>\) -> bool \{",
+     "rectCoord", "(mn mx rhs : Pt)", "Bool", {}, [("self.min", "mn"), ("self.max", "mx")]),
+    ("geo/src/algorithm/intersects/rect.rs", r"impl<T> Intersects<Rect<T>> for Rect<T>.*?fn intersects\(&self, other: &Rect<T>\) -> bool \{",
+     "rectRect", "(mn mx omn omx : Pt)", "Bool", {},
+     [("self.min", "mn"), ("self.max", "mx"), ("other.min", "omn"), ("other.max", "omx")]),
+    ("geo/src/algorithm/contains/rect.rs", r"impl<T> Contains<Coord<T>> for Rect<T>.*?fn contains\(&self, coord: &Coord<T>\) -> bool \{",
+     "rectContainsCoord", "(mn mx coord : Pt)", "Bool", {}, [("self.min", "mn"), ("self.max", "mx")]),
+    ("geo/src/algorithm/contains/rect.rs", r"impl<T> Contains<Rect<T>> for Rect<T>.*?fn contains\(&self, other: &Rect<T>\) -> bool \{",
+     "rectContainsRect", "(mn mx omn omx : Pt)", "Bool", {},
+     [("self.min", "mn"), ("self.max", "mx"), ("other.min", "omn"), ("other.max", "omx")]),
+    ("geo-types/src/private_utils.rs", r"fn get_min_max<T: PartialOrd>\(p: T, min: T, max: T\) -> \(T, T\) \{",
+     "getMinMax", "(p min max : Rat)", "Rat × Rat", {}, []),
+    ("geo/src/utils.rs", r"pub fn partial_max<T: PartialOrd>\(a: T, b: T\) -> T \{", "partialMax", "(a b : Rat)", "Rat", {}, []),
+    ("geo/src/utils.rs", r"pub fn partial_min<T: PartialOrd>\(a: T, b: T\) -> T \{", "partialMin", "(a b : Rat)", "Rat", {}, []),
+    ("geo/src/algorithm/kernels/mod.rs", r"fn orient2d\(p: Coord<T>, q: Coord<T>, r: Coord<T>\) -> Orientation \{",
+     "orient2d", "(p q r : Pt)", "Ori", {}, []),
+    ("geo/src/algorithm/kernels/mod.rs", r"fn square_euclidean_distance\(p: Coord<T>, q: Coord<T>\) -> T \{",
+     "squareEuclideanDistance", "(p q : Pt)", "Rat", {}, []),
+    ("geo-types/src/geometry/line.rs", r"pub fn determinant\(&self\) -> T \{", "lineDeterminant", "(s e : Pt)", "Rat", {},
+     [("self.start", "s"), ("self.end", "e")]),
+    ("geo-types/src/geometry/point.rs", r"pub fn cross_prod\(self, point_b: Self, point_c: Self\) -> T \{",
+     "crossProd", "(self_ point_b point_c : Pt)", "Rat", {}, [("self", "self_")]),
+    ("geo/src/algorithm/intersects/line.rs", r"impl<T> Intersects<Coord<T>> for Line<T>.*?fn intersects\(&self, rhs: &Coord<T>\) -> bool \{",
+     "lineCoord", "(s e rhs : Pt)", "Bool", {"T::Ker::orient2d": "Geo.orient", "point_in_rect": "pointInRect"},
+     [("self.start", "s"), ("self.end", "e")]),
+    ("geo/src/algorithm/intersects/line.rs", r"impl<T> Intersects<Line<T>> for Line<T>.*?fn intersects\(&self, line: &Line<T>\) -> bool \{",
+     "lineLine", "(s e ls le : Pt)", "Bool",
+     {"T::Ker::orient2d": "Geo.orient", "point_in_rect": "pointInRect", ".intersects": "lineCoord"},
+     [("line.start", "ls"), ("line.end", "le"), ("self.start", "s"), ("self.end", "e"), ("line", "ls le")]),
+]
+
+def kernel_functions(repo, outdir):
+    """Gen/Kernel.lean: small pure kernel functions regenerated from their Rust bodies."""
+    import rsexpr
+    out = ["/- generated by translator/rs2lean.py (rsexpr) from the Rust sources named beside each definition; do not edit -/",
+           "import GeoModel.Orient", "", "namespace Geo.Gen", ""]
+    cache = {}
+    for (rel, hdr, name, params, ret, funcs, subst) in KERNEL_FNS:
+        if rel not in cache:
+            cache[rel] = strip_comments(open(os.path.join(repo, rel)).read())
+        try:
+            term = rsexpr.translate(cache[rel], hdr, ORI_PATHS, funcs, subst)
+        except rsexpr.TranslateError as e:
+            die("%s (%s): %s" % (name, rel, e))
+        out.append("/-- `%s` — %s -/" % (name, rel))
+        out.append("def %s %s : %s :=\n  %s\n" % (name, params, ret, term))
+    out += ["end Geo.Gen", ""]
+    write(os.path.join(outdir, "Kernel.lean"), "\n".join(out))
+    return len(KERNEL_FNS)
 
 ENDPT = {"p.start": "p1", "p.end": "p2", "q.start": "q1", "q.end": "q2"}
 
@@ -186,7 +248,8 @@ def main():
               "end Geo.Gen", ""]
     write(os.path.join(outdir, "Enums.lean"), "\n".join(enums))
     rows = collinear_table(repo, outdir)
-    print("rs2lean: wrote Masks.lean (%d predicates), Enums.lean (%d op rules), CollinearTable.lean (%d rows)" % (len(fns), len(pairs), rows))
+    nk = kernel_functions(repo, outdir)
+    print("rs2lean: wrote Masks.lean (%d predicates), Enums.lean (%d op rules), CollinearTable.lean (%d rows), Kernel.lean (%d functions)" % (len(fns), len(pairs), rows, nk))
 
 if __name__ == "__main__":
     main()
